@@ -173,6 +173,25 @@ func (c *loopCtx) state(e *env, stmts []ast.Stmt, locals, extra []string) []stri
 	return e.bySeq(acc)
 }
 
+// noShadow refuses a loop body that defines (`:=`) a name already bound outside the loop: the
+// recursive call at the end of the body passes the loop state by name
+func (e *env) noShadow(stmts []ast.Stmt) {
+	for _, s := range stmts {
+		ast.Inspect(s, func(x ast.Node) bool {
+			if as, ok := x.(*ast.AssignStmt); ok && as.Tok == token.DEFINE {
+				for _, l := range as.Lhs {
+					if n := identName(l); n != "" && n != "_" {
+						if _, outer := e.vars[n]; outer || regionReserved[n] {
+							refuse("the loop body defines %s, which shadows a variable of the function", n)
+						}
+					}
+				}
+			}
+			return true
+		})
+	}
+}
+
 // freeVars: variables of the environment read below nodes that are not in exclude
 func (e *env) freeVars(nodes []ast.Node, exclude map[string]bool) []string {
 	found := map[string]bool{}
@@ -299,7 +318,24 @@ func (c *loopCtx) rangeLoop(e *env, n *ast.RangeStmt, rest []ast.Stmt, k func(en
 			refuse("range variable %s shadows a variable", l)
 		}
 	}
+	e.noShadow(n.Body.List)
+	{
+		// the body must not assign the range variables (the generated recursion owns them)
+		acc := map[string]bool{}
+		e.assigned(n.Body.List, acc, map[string]bool{})
+		for _, l := range locals {
+			if acc[l] {
+				refuse("the loop body assigns the range variable %s", l)
+			}
+		}
+	}
 	state := c.state(e, n.Body.List, locals, nil)
+	for _, st := range state {
+		if st == srcName {
+			// Go's range evaluates the slice header once but reads the elements from the array as it goes
+			refuse("the range loop assigns the slice %s it ranges over", srcName)
+		}
+	}
 	excl := map[string]bool{}
 	for _, s := range state {
 		excl[s] = true
@@ -399,6 +435,7 @@ func (c *loopCtx) forLoop(e *env, n *ast.ForStmt, rest []ast.Stmt, k func(en *en
 	if n.Post != nil {
 		stmts = append(stmts, n.Post)
 	}
+	e.noShadow(stmts)
 	state := c.state(e, stmts, nil, initNames)
 	excl := map[string]bool{}
 	for _, s := range state {
